@@ -110,8 +110,15 @@ impl<'a, P: for<'p> Protocol<'p>> DemoWriter<'a, P> {
 
         // Build snap.
         for (item, id) in items {
-            self.builder
-                .add_item(item.obj_type_id(), id, item.encode())?;
+            if let Err(err) = self
+                .builder
+                .add_item(item.obj_type_id(), id, item.encode())
+            {
+                // Don't let the items of the refused snapshot leak into the
+                // next one.
+                self.builder = mem::take(&mut self.builder).finish().recycle();
+                return Err(err.into());
+            }
         }
 
         let old_snap = mem::take(&mut self.snap);
